@@ -53,10 +53,11 @@ int main(int argc, char** argv) {
             }
         }
         std::unique_ptr<RFKickMap> rf;
-        double t_eff;
+        double t_eff, nonlin = 0;     // nonlin: relative curvature of the sine over the region the charge occupies
         if (!sinus) { rf.reset(new RFKickMap(A, B, (meshaxis_t)a, (frequency_t)fRF, (SourceMap::InterpolationType)it, false, nullptr)); t_eff = std::tan((double)(float)a); }
         else {
             double bl2phase = qscale / physcons::c * fRF * PI2;
+            nonlin = std::pow(bl2phase * (2.0 + 2.5), 2) / 6.0;     // centroid radius <= 2 sigma, blobs reach 2.4 sigma further
             double revpart = a * pscale / (V * bl2phase);     // so that the small-amplitude kick is a*q
             rf.reset(new RFKickMap(A, B, (timeaxis_t)revpart, (meshaxis_t)V, (frequency_t)fRF, (meshaxis_t)0, (SourceMap::InterpolationType)it, false, nullptr));
             t_eff = (double)(float)revpart * (double)(float)V * bl2phase / pscale;
@@ -79,8 +80,9 @@ int main(int argc, char** argv) {
             double e2 = std::hypot(ck.q - ex, ck.p - ey);
             worst_tight = std::max(worst_tight, e1); worst_rot = std::max(worst_rot, e2);
             M.ev("steps_observed");
-            double tol1 = (sinus ? 2e-3 * r0 * (1 + k * a) : 0) + 2e-5 * (1 + r0) * (1 + 0.02 * k);
-            double tol2 = 2.0 * a * r0 + 2e-4 + (sinus ? 2e-3 * r0 * (1 + k * a) : 0);
+            double sin_allow = sinus ? std::max(2e-3, nonlin) * r0 * (1 + k * a) : 0;
+            double tol1 = sin_allow + 2e-5 * (1 + r0) * (1 + 0.02 * k);
+            double tol2 = 2.0 * a * r0 + 2e-4 + sin_allow;
             if (std::fabs(ck.w / c0.w - 1) > 1e-3) { M.ev("charge_left_grid"); stop = true; break; }   // generator fault, not judged
             bool lossless = std::fabs(ck.w / c0.w - 1) < 2e-6;    // the tight oracle presumes that no charge has reached the border
             if (!lossless) M.ev("steps_with_charge_loss_not_judged");
